@@ -734,7 +734,11 @@ impl<K: CacheKey + 'static> AsyncCache<K> for DiskCache<K> {
                 .fetch_sub(entry.size_bytes as u64, Ordering::Relaxed);
             Ok(true)
         } else {
-            Ok(false)
+            // Not indexed, e.g. written by a previous instance on this directory.
+            // get() would still find the file through its on-disk fallback, so
+            // the file has to be deleted as well (index lock still held).
+            let file_path = self.get_file_path(key);
+            Ok(fs::remove_file(&file_path).is_ok())
         }
     }
 
@@ -924,6 +928,31 @@ mod tests {
             None
         );
         assert_eq!(cache.size().await.expect("Operation should succeed"), 0);
+    }
+
+    #[tokio::test]
+    async fn test_disk_cache_remove_on_new_instance() {
+        let temp_dir = TempDir::new().expect("Operation should succeed");
+        let config = DiskCacheConfig::new(temp_dir.path()).with_max_files(100);
+
+        let key = RibbitKey::new("persistent", "us");
+
+        {
+            let cache = DiskCache::new(config.clone()).expect("Operation should succeed");
+            cache
+                .put(key.clone(), Bytes::from("persistent data"))
+                .await
+                .expect("Operation should succeed");
+        }
+
+        // A new instance has an empty index but must still remove the entry
+        let cache = DiskCache::new(config).expect("Operation should succeed");
+        assert!(cache.remove(&key).await.expect("Operation should succeed"));
+        assert_eq!(
+            cache.get(&key).await.expect("Operation should succeed"),
+            None
+        );
+        assert!(!cache.remove(&key).await.expect("Operation should succeed"));
     }
 
     #[tokio::test]
